@@ -199,3 +199,9 @@ pub fn glued_line_comments(input: &str, output: &str) -> (Vec<String>, String) {
     }
     (glued, repaired)
 }
+
+
+/// the text without white space (to look for `. (exists` however it is laid out)
+pub fn squeeze_parens(s: &str) -> String {
+    s.chars().filter(|c| !c.is_whitespace()).collect()
+}
